@@ -19,6 +19,10 @@ MCNext ==
 
 MCSpec == MCInit /\ [][MCNext]_<<vars, hist>>
 
+\* every waiter is eventually released / the coroutine eventually completes, under weak fairness of every thread
+FairSpec == MCSpec /\ \A p \in Proc : WF_<<vars, hist>>(MCStep /\ hist' = hist /\ ev'.p = p)
+EventuallyQuiescent == <>Quiescent
+
 NoRace == MM!NoRace(mm)
 NoStuck == (~ENABLED (MCStep \/ Timeout)) => Quiescent
 View == <<scen, cnt, hd, list, cb, freed, dn, jb, timedout, pc, mi, todo, hs, wjob, wph, wret, coro, kcb, rels, touts, err, mm>>
